@@ -266,9 +266,28 @@ func c08Stream(c *vc.Ctx, t c08Case) *vc.Fail {
 		}
 		run = append(run, cb.Stmts...)
 	}
-	for k := 1; k <= len(lines); k++ {
-		if !seenK[k] {
-			c.Count("interactive_lines_without_callback", 1) // informational: not part of the property
+	for k := 1; k < len(lines); k++ {
+		if seenK[k] {
+			continue
+		}
+		c.Count("interactive_lines_without_callback", 1)
+		// "If a line ending in an incomplete statement is parsed, the
+		// function will be called [...] and Incomplete will return true"
+		if unf, judged := c08Unfinished(strings.Join(lines[:k], ""), lang); judged && unf {
+			// Family: the boundary lies inside the body of a <<- here-document,
+			// after its first line (the lexer peeks for leading tabs there
+			// before it has counted the finished line).
+			class := ""
+			b := uint(len(strings.Join(lines[:k], "")))
+			syntax.Walk(f, func(n syntax.Node) bool {
+				if r, ok := n.(*syntax.Redirect); ok && r.Op == syntax.DashHdoc && r.Hdoc != nil &&
+					r.Hdoc.Pos().Offset() < b && b <= r.Hdoc.End().Offset() {
+					class = "interactive-no-callback-inside-dash-heredoc-body"
+				}
+				return true
+			})
+			return &vc.Fail{Key: fmt.Sprintf("%s no-callback-for-incomplete-line=%d", key, k), Class: class,
+				Msg: fmt.Sprintf("[%s] %s: line %d ends inside an unfinished statement (consumed %q) but no callback was made before the next line was read", t.Variant, shortSrc(t.Src), k, strings.Join(lines[:k], ""))}
 		}
 	}
 	if d := c08FirstDiff(run, want); d != "" {
